@@ -442,7 +442,10 @@ fn execute(sc: &Scenario, out: &mut Outcome) {
         };
         c.send(&bytes2, 0);
         match after2 {
-            After::Fin(d) => c.send_fin(d),
+            After::Fin(d) => {
+                c.send_fin(d);
+                simcore::with(|w| w.count("fault.fin_after_partial_input"));
+            }
             After::Rst(k, d) => {
                 c.send_rst(err_kind(k), d);
                 simcore::with(|w| w.count("fault.connection_error"));
